@@ -255,19 +255,22 @@ Proof.
 Qed.
 
 Lemma dec_step_J id kind isend s first d :
-  J s 0 -> dec_ok d -> (d = DNl -> fresh_b s = false) ->
+  J s 0 -> dec_ok d ->
   J (fst (dec_step id kind isend (s, first) d)) 0 /\
   cursor s <= cursor (fst (dec_step id kind isend (s, first) d)).
 Proof.
-  intros HJ Hok Hnl. unfold dec_step. fold (bump isend s).
+  intros HJ Hok. unfold dec_step. fold (bump isend s).
   destruct (bump_J isend s HJ) as [HJ1 [Hc1 Hnf]].
   set (s1 := bump isend s) in *.
   destruct d as [|l u|l nls u|l u]; cbn [fst].
-  - (* "\n" *)
-    specialize (Hnf (Hnl eq_refl)). destruct HJ1 as [HK1 _].
-    destruct (add_line_K s1 (cursor s1 - base s1) HK1 Hnf) as [HK2 Hh2].
+  - (* "\n": the cursor steps over the line break first *)
+    pose proof (J_hd_le s1 HJ1) as Hle. destruct HJ1 as [HK1 _].
+    set (s1' := set_cursor s1 (cursor s1 + 1)).
+    assert (HK1' : K s1') by (apply (K_mono s1); auto; cbn; try lia; destruct HK1; lia).
+    assert (Hh1' : hd_line s1' < cursor s1' - base s1') by (unfold s1', hd_line in *; cbn; lia).
+    destruct (add_line_K s1' (cursor s1' - base s1') HK1' Hh1') as [HK2 Hh2].
     split; [|cbn; lia]. split.
-    + apply (K_mono (add_line s1 (cursor s1 - base s1))); auto; cbn; try lia.
+    + apply (K_mono (add_line s1' (cursor s1' - base s1'))); auto; cbn; try lia.
     + left. unfold hd_line. cbn. lia.
   - (* line comment *)
     cbn in Hok. pose proof (J_hd_le s1 HJ1) as Hle. destruct HJ1 as [HK1 _].
@@ -297,45 +300,25 @@ Proof.
     split; [exact HJ1|exact Hc1].
 Qed.
 
-(* a "\n" decoration executed while nothing has been emitted yet (the SetLines defect) *)
-Fixpoint nlbad_decs (id : N) (kind : string) (isend : bool) (st : rstate * bool) (ds : list dec) : bool :=
-  match ds with
-  | [] => false
-  | d :: r => (match d with DNl => fresh_b (fst st) | _ => false end)
-              || nlbad_decs id kind isend (dec_step id kind isend st d) r
-  end.
-
-Fixpoint nlbad (s : rstate) (acts : list action) : bool :=
-  match acts with
-  | [] => false
-  | a :: r =>
-    (match panic s, a with
-     | None, ADecs id kind _ isend ds => nlbad_decs id kind isend (s, true) ds
-     | _, _ => false
-     end) || nlbad (rstep s a) r
-  end.
-
 Lemma fold_decs_J id kind isend ds : forall s first,
-  J s 0 -> Forall dec_ok ds -> nlbad_decs id kind isend (s, first) ds = false ->
+  J s 0 -> Forall dec_ok ds ->
   J (fst (fold_left (dec_step id kind isend) ds (s, first))) 0 /\
   cursor s <= cursor (fst (fold_left (dec_step id kind isend) ds (s, first))).
 Proof.
-  induction ds as [|d r IH]; intros s first HJ Hok Hnl; cbn [fold_left].
+  induction ds as [|d r IH]; intros s first HJ Hok; cbn [fold_left].
   - split; [exact HJ|cbn; lia].
-  - inversion Hok as [|? ? Hd Hr]; subst. cbn [nlbad_decs fst] in Hnl.
-    apply orb_false_iff in Hnl. destruct Hnl as [Hn1 Hn2].
+  - inversion Hok as [|? ? Hd Hr]; subst.
     destruct (dec_step_J id kind isend s first d HJ Hd) as [HJ1 Hc1].
-    { intros ->. exact Hn1. }
     destruct (dec_step id kind isend (s, first) d) as [s1 f1] eqn:E. cbn [fst] in *.
-    destruct (IH s1 f1 HJ1 Hr Hn2) as [HJ2 Hc2]. split; [exact HJ2|lia].
+    destruct (IH s1 f1 HJ1 Hr) as [HJ2 Hc2]. split; [exact HJ2|lia].
 Qed.
 
 Lemma apply_decs_J s id kind name isend ds :
-  J s 0 -> Forall dec_ok ds -> nlbad_decs id kind isend (s, true) ds = false ->
+  J s 0 -> Forall dec_ok ds ->
   J (apply_decs s id kind name isend ds) 0 /\ cursor s <= cursor (apply_decs s id kind name isend ds).
 Proof.
-  intros HJ Hok Hnl. unfold apply_decs.
-  destruct (fold_decs_J id kind isend ds s true HJ Hok Hnl) as [HJ1 Hc1].
+  intros HJ Hok. unfold apply_decs.
+  destruct (fold_decs_J id kind isend ds s true HJ Hok) as [HJ1 Hc1].
   set (s1 := fst (fold_left (dec_step id kind isend) ds (s, true))) in *.
   destruct (String.eqb kind "File" && String.eqb name "Start"); [|split; assumption].
   pose proof (J_hd_le s1 HJ1) as Hle. destruct HJ1 as [HK1 _].
@@ -360,14 +343,10 @@ Lemma rstep_J s k a :
    | AAdv l => k <= l
    | _ => k = 0
    end) ->
-  (match panic s, a with
-   | None, ADecs id kind _ isend ds => nlbad_decs id kind isend (s, true) ds = false
-   | _, _ => True
-   end) ->
   panic (rstep s a) = None ->
   J (rstep s a) (next_slack k a) /\ cursor s <= cursor (rstep s a) /\ base (rstep s a) = base s.
 Proof.
-  intros HJ Hok Hk Hnl Hnp. unfold rstep in *. destruct (panic s) eqn:Hp; [cbn in Hnp; congruence|].
+  intros HJ Hok Hk Hnp. unfold rstep in *. destruct (panic s) eqn:Hp; [cbn in Hnp; congruence|].
   destruct a as [id|id|isbad after sp|id kind name isend ds|l|id f|id f|l nls|w]; cbn [next_slack].
   - (* AEnter *)
     destruct (existsb (N.eqb id) (seen s)); [unfold set_panic in Hnp; cbn in Hnp; rewrite Hp in Hnp; discriminate|].
@@ -377,7 +356,7 @@ Proof.
     split; [apply (K_mono s); auto; cbn; try lia; destruct HK; lia|exact Hh].
   - subst k. split; [apply apply_space_J; exact HJ|]. split; [apply apply_space_cursor|].
     unfold apply_space. destruct (Z.leb _ 0); [reflexivity|]. destruct (Z.eqb _ 1); reflexivity.
-  - subst k. cbn in Hok. destruct (apply_decs_J s id kind name isend ds HJ Hok Hnl) as [A B].
+  - subst k. cbn in Hok. destruct (apply_decs_J s id kind name isend ds HJ Hok) as [A B].
     split; [exact A|split; [exact B|]].
     unfold apply_decs. assert (G : forall ds st, base (fst (fold_left (dec_step id kind isend) ds st)) = base (fst st)).
     { clear. induction ds as [|d r IH]; intros [s f]; [reflexivity|]. cbn [fold_left]. rewrite IH.
@@ -419,15 +398,14 @@ Proof.
 Qed.
 
 Lemma run_J acts : forall s k,
-  J s k -> Forall act_ok acts -> safe k acts -> nlbad s acts = false ->
+  J s k -> Forall act_ok acts -> safe k acts ->
   panic (fold_left rstep acts s) = None ->
   J (fold_left rstep acts s) 0 /\ cursor s <= cursor (fold_left rstep acts s) /\
   base (fold_left rstep acts s) = base s.
 Proof.
-  induction acts as [|a r IH]; intros s k HJ Hok Hs Hnl Hnp; cbn [fold_left] in *.
+  induction acts as [|a r IH]; intros s k HJ Hok Hs Hnp; cbn [fold_left] in *.
   - cbn in Hs. subst k. split; [exact HJ|split; [lia|reflexivity]].
   - inversion Hok as [|? ? Ha Hr]; subst.
-    cbn [nlbad] in Hnl. apply orb_false_iff in Hnl. destruct Hnl as [Hn1 Hn2].
     assert (Hp1 : panic (rstep s a) = None).
     { destruct (panic (rstep s a)) as [w|] eqn:E; [|reflexivity].
       rewrite (panic_sticky r _ w E) in Hnp. discriminate. }
@@ -446,12 +424,8 @@ Proof.
       - destruct Hs as [Hk0 Hs]. split; [exact Hk0|]. destruct nls; exact Hs.
       - unfold rstep in Hp1. destruct (panic s) eqn:E; [congruence|]. unfold set_panic in Hp1. cbn in Hp1. rewrite E in Hp1. discriminate. }
     destruct Hcond as [Hk Hs'].
-    assert (Hnl' : match panic s, a with
-                   | None, ADecs id kind _ isend ds => nlbad_decs id kind isend (s, true) ds = false
-                   | _, _ => True end).
-    { destruct (panic s); [exact I|]. destruct a; try exact I. exact Hn1. }
-    destruct (rstep_J s k a HJ Ha Hk Hnl' Hp1) as [HJ1 [Hc1 Hb1]].
-    destruct (IH (rstep s a) (next_slack k a) HJ1 Hr Hs' Hn2 Hnp) as [HJ2 [Hc2 Hb2]].
+    destruct (rstep_J s k a HJ Ha Hk Hp1) as [HJ1 [Hc1 Hb1]].
+    destruct (IH (rstep s a) (next_slack k a) HJ1 Hr Hs' Hnp) as [HJ2 [Hc2 Hb2]].
     split; [exact HJ2|split; [lia|congruence]].
 Qed.
 
@@ -497,7 +471,7 @@ Qed.
 (* ---- the C12 statements for arbitrary action lists ---------------------------------------- *)
 
 Theorem run_coherent b acts :
-  1 <= b -> Forall act_ok acts -> safe 0 acts -> nlbad (init_r b) acts = false ->
+  1 <= b -> Forall act_ok acts -> safe 0 acts ->
   panic (run_acts b acts) = None ->
   exists r, finish (run_acts b acts) = Ok r /\
     (* the line table is strictly increasing and inside the file: SetLines succeeds *)
@@ -508,8 +482,8 @@ Theorem run_coherent b acts :
     (* every comment lies inside the file *)
     (forall g p l u, In g (r_comments r) -> In (p, l, u) (g_list g) -> b <= p /\ p + l <= b + r_size r).
 Proof.
-  intros Hb Hok Hs Hnl Hnp. unfold run_acts in *.
-  destruct (run_J acts (init_r b) 0 (J_init b Hb) Hok Hs Hnl Hnp) as [[HK Hh] [Hc Hbase]].
+  intros Hb Hok Hs Hnp. unfold run_acts in *.
+  destruct (run_J acts (init_r b) 0 (J_init b Hb) Hok Hs Hnp) as [[HK Hh] [Hc Hbase]].
   set (s := fold_left rstep acts (init_r b)) in *. cbn [base init_r] in Hbase.
   destruct (file_end_bounds s) as [Hfe Hfl].
   assert (Hinc : strictly_increasing (rev (lines s)) = true) by (apply desc_strictly_increasing; destruct HK; assumption).
